@@ -3,8 +3,11 @@
 # exit 0: property held on everything explored; 1: VIOLATION line printed; 2: harness error (no VIOLATION line)
 cd /verif
 id="$1"; tier="${2:-quick}"
-if ! scripts/build.sh base >.build/build-$id.log 2>&1; then
-  echo "harness build failed (see .build/build-$id.log)"; tail -20 .build/build-$id.log; exit 2
+tag="${VERIF_BUILD_TAG:-main}"
+suffix=""; [ "$tag" != "main" ] && suffix="-$tag"
+mkdir -p .build
+if ! scripts/build.sh base >.build/build-$tag-$id.log 2>&1; then
+  echo "harness build failed (see .build/build-$tag-$id.log)"; tail -20 .build/build-$tag-$id.log; exit 2
 fi
 . scripts/env.sh
-exec .build/bin/verif check "$id" "$tier"
+exec .build/bin/verif$suffix check "$id" "$tier"
